@@ -169,7 +169,11 @@ func checkC08(c *lib.Ctx) {
 		if c.Tier == "thorough" {
 			perKind, windowStep = 12, 1
 		}
-		specials := func(n uint32) []uint32 { return []uint32{0, 1, n - 1, n + 1, 0x7fffffff, 0xffffffff} }
+		// 0, 1, n-1, n+1, 2^31-1, 2^32-1 and the values at which a multiplication of a count by an element
+		// size (8, 12, 32) wraps around 2^32
+		specials := func(n uint32) []uint32 {
+			return []uint32{0, 1, n - 1, n + 1, 0x7fffffff, 0xffffffff, 0x20000000, 0x20000001, 0x80000000, 0x15555556, 0x08000000, 0xfffffffc}
+		}
 		for _, k := range c06Kinds {
 			for i := 0; i < perKind; i++ {
 				v := g.pkt(k, 5+i*7)
@@ -228,7 +232,7 @@ func checkC08(c *lib.Ctx) {
 		}
 		// absurd counts with nothing behind them
 		for _, e := range []string{"attrs", "fxattrs"} {
-			for _, cnt := range []uint32{0x0fffffff, 0xffffffff, 0x7fffffff, 2, 1} {
+			for _, cnt := range []uint32{0x0fffffff, 0xffffffff, 0x7fffffff, 0x20000000, 0x20000001, 0x40000000, 0x80000000, 0xe0000000, 2, 1} {
 				cases = append(cases, c08Case{Entry: e, Body: lib.Hex(wire.B{}.U32(0x80000000).U32(cnt)), Kind: "attr-block", Mut: "count-only"})
 			}
 		}
@@ -330,7 +334,7 @@ func checkC08(c *lib.Ctx) {
 	for cut := 0; cut <= len(v); cut++ {
 		frames = append(frames, v[:cut])
 	}
-	for _, n := range []uint32{0, 1, uint32(len(v) - 5), uint32(len(v) - 3), 0x7fffffff, 0xffffffff, 262144, 262145, 262143} {
+	for _, n := range []uint32{0, 1, uint32(len(v) - 5), uint32(len(v) - 3), 0x7fffffff, 0xffffffff, 262144, 262145, 262143, 262157, 262158, 262144 + 4096} {
 		f := append([]byte(nil), v...)
 		binary.BigEndian.PutUint32(f, n)
 		frames = append(frames, f)
@@ -342,7 +346,20 @@ func checkC08(c *lib.Ctx) {
 	for _, f := range frames {
 		for _, alloc := range []bool{false, true} {
 			cr := &countingReader{r: bytes.NewReader(f)}
-			typ, payload, err := sftp.VerifRecvPacket(cr, alloc)
+			var typ uint8
+			var payload []byte
+			var err error
+			panicked := func() (p any) {
+				defer func() { p = recover() }()
+				typ, payload, err = sftp.VerifRecvPacket(cr, alloc)
+				return nil
+			}()
+			if panicked != nil {
+				hx := lib.Hex(f[:min(len(f), 24)])
+				r.Fail(lib.Failure{Kind: "oracle", Key: "framing/panic", What: fmt.Sprintf("recvPacket panicked: %v", panicked),
+					Input: map[string]any{"stream_prefix": hx, "stream_len": len(f), "allocator": alloc}})
+				continue
+			}
 			declared := uint32(0)
 			if len(f) >= 4 {
 				declared = binary.BigEndian.Uint32(f)
